@@ -51,6 +51,60 @@ def run(repo, rep, tier):
     from props import _policy as P
     from sa.consteval import ConstEnv
     consts = P.class_consts(repo, ConstEnv(repo))
+    # ---- rule 0: "every field the policy specifies": the policy state the verdict is computed from is what the policy file says ------------------------
+    # The constructor is interpreted (props/_policy.load) on hand-written policy files: lists keep the names as written (SSH names are case-sensitive and
+    # contain '=', '+', '/', '@'), in order, blanks around names and around the '=' of a directive dropped; size maps are the JSON written; a flag is on
+    # exactly for the value "true"; directives that are absent or commented out specify nothing.
+    TEXTS = [
+        ('a hand-written baseline with both relaxations', """
+# comment
+name = "Baseline"
+version = 7
+allow_algorithm_subset_and_reordering = true
+allow_larger_keys = true
+banner = "SSH-2.0-Example_1.0"
+compressions = none, zlib@openssh.com
+host keys = rsa-sha2-512,ssh-ed25519 ,  ssh-ed25519-cert-v01@openssh.com
+optional host keys = sk-ssh-ed25519@openssh.com
+key exchanges = gss-group14-sha256-toWM5Slw5Ew8Mqkay+al2g==, kexAlgoCurve25519SHA256, curve25519-sha256@libssh.org, kex-strict-s-v00@openssh.com
+ciphers = AEAD_AES_256_GCM, aes256-ctr
+macs = hmac-sha2-256
+host_key_sizes = {"rsa-sha2-512": {"hostkey_size": 3072}, "ssh-ed25519-cert-v01@openssh.com": {"hostkey_size": 256, "ca_key_type": "ssh-rsa", "ca_key_size": 4096}}
+dh_modulus_sizes = {"gss-gex-sha1-vz8J1E9PzLr8b1K+0remTg==": 2048, "diffie-hellman-group-exchange-sha256": 3072}
+""", {'_name': 'Baseline', '_version': '7', '_allow_algorithm_subset_and_reordering': True, '_allow_larger_keys': True, '_banner': 'SSH-2.0-Example_1.0', '_compressions': ['none', 'zlib@openssh.com'],
+            '_host_keys': ['rsa-sha2-512', 'ssh-ed25519', 'ssh-ed25519-cert-v01@openssh.com'], '_optional_host_keys': ['sk-ssh-ed25519@openssh.com'],
+            '_kex': ['gss-group14-sha256-toWM5Slw5Ew8Mqkay+al2g==', 'kexAlgoCurve25519SHA256', 'curve25519-sha256@libssh.org', 'kex-strict-s-v00@openssh.com'], '_ciphers': ['AEAD_AES_256_GCM', 'aes256-ctr'], '_macs': ['hmac-sha2-256'],
+            '_hostkey_sizes': {'rsa-sha2-512': {'hostkey_size': 3072, 'ca_key_type': '', 'ca_key_size': 0}, 'ssh-ed25519-cert-v01@openssh.com': {'hostkey_size': 256, 'ca_key_type': 'ssh-rsa', 'ca_key_size': 4096}},
+            '_dh_modulus_sizes': {'gss-gex-sha1-vz8J1E9PzLr8b1K+0remTg==': 2048, 'diffie-hellman-group-exchange-sha256': 3072}, '_server_policy': True}),
+        ('an exact-match client policy that specifies two lists only', """
+name = "Clients"
+version = 1
+client policy = true
+allow_algorithm_subset_and_reordering = false
+allow_larger_keys = no
+#host keys = ssh-rsa
+key exchanges = curve25519-sha256
+ciphers = aes256-ctr, aes128-ctr
+""", {'_name': 'Clients', '_version': '1', '_allow_algorithm_subset_and_reordering': False, '_allow_larger_keys': False, '_banner': None, '_compressions': None, '_host_keys': None, '_optional_host_keys': None,
+            '_kex': ['curve25519-sha256'], '_ciphers': ['aes256-ctr', 'aes128-ctr'], '_macs': None, '_hostkey_sizes': None, '_dh_modulus_sizes': None, '_server_policy': False}),
+    ]
+    init = repo.func('policy', 'Policy.__init__')
+    rep.saw(init)
+    for tdesc, text, want_state in TEXTS:
+        st_ = P.load(repo, consts, text)
+        rep.evals()
+        if not isinstance(st_, dict):
+            rep.check('loader', 'the constructor loads %s' % tdesc, False, init, 'a valid policy file (%s) does not load: %s' % (tdesc, st_[1]), stmt='loader: %s' % tdesc)
+            continue
+        diffs = []
+        for k_, v_ in want_state.items():
+            g_ = st_.get(k_)
+            if k_ == '_hostkey_sizes' and isinstance(g_, dict) and isinstance(v_, dict):
+                g_ = {t_: {f_: x_ for f_, x_ in e_.items() if f_ != 'raw_hostkey_bytes'} for t_, e_ in g_.items() if isinstance(e_, dict)}
+            if g_ != v_:
+                diffs.append('%s is %r, the file says %r' % (k_, g_, v_))
+        rep.check('loader', 'the policy state is what the file specifies (%s)' % tdesc, not diffs, init,
+                  'the policy the verdict is computed from is not the one the file specifies (%s): %s' % (tdesc, '; '.join(diffs[:3])), stmt='loader: %s' % tdesc, sample={'rule': 'loader', 'file': tdesc})
     banner = 'SSH-2.0-OpenSSH_9.9'
     nrows = 0
     bad = {'table': [], 'pairing': [], 'errors': [], 'monotone': []}
